@@ -113,7 +113,7 @@ class CHECK(Check):
             yield {"regdefs": rd, "elems": [[0, d], [-1, "free text\n"], [0, d]]}
 
     def impl(self, case):
-        regs = [reglib.mk_register_class(rd, i) for i, rd in enumerate(case["regdefs"])]
+        regs = reglib.mk_register_classes(case["regdefs"])
         F = reglib.mk_file_class(regs)
         try:
             with lib.budget(200000):
